@@ -51,6 +51,7 @@ pub fn all() -> Vec<Regression> {
         Regression { name: "D32-dense-without-accepted-step", property: "C06", what: "Radau/BDF, first_step = span/2, max_steps = 5, dense output: the run ends before its first accepted step and sol(x0) must still return y0", f: d32 },
         Regression { name: "D33-dopri5-naccpt-at-probably-stiff", property: "C18", what: "DOPRI5 on y'=-2000(y-cos t) ends with ProbablyStiff: naccpt must equal the number of reported intervals", f: d33 },
         Regression { name: "D34-rk23-xout-interpolant", property: "C07", what: "RK23 built with dense_output(false): the interpolant obtained through XOut must reproduce the step's end state (was all zeros)", f: d34 },
+        Regression { name: "D35-sol-range-rounding", property: "C06", what: "sol(t) and sol_many must succeed at every reported time (RK23, lin3 on [0, 0.38688] and [0, 0.4461], rtol 1e-2: last time one ulp beyond the last segment)", f: d35 },
         Regression { name: "D16-rk4-dense-order", property: "C07", what: "RK4 cubic Hermite dense output must be O(h^4) inside a step", f: d16 },
     ]
 }
@@ -594,6 +595,29 @@ fn d28() -> Result<(), String> {
     for w in s.t.windows(2) {
         if !(w[1] > w[0]) {
             return Err(format!("t not strictly increasing: {:e} then {:e}", w[0], w[1]));
+        }
+    }
+    Ok(())
+}
+
+fn d35() -> Result<(), String> {
+    let p0 = base(Base::Lin3);
+    for span in [3.0 * (0.05 + 0.00987 * 8.0), 3.0 * (0.05 + 0.00987 * 10.0)] {
+        for dirn in [1.0, -1.0] {
+            let p = if dirn < 0.0 { crate::problems::reflect(&p0) } else { p0.clone() };
+            let mut c = Cfg::new(Method::RK23, 0.0, dirn * span, &p.y0).tol(1e-2, 1e-4);
+            c.dense = true;
+            c.user_jac = true;
+            let r = run(&p, &c);
+            let s = sol_of(&r)?;
+            for t in &s.t {
+                if let Err(e) = s.sol(*t) {
+                    return Err(format!("span {:e}: sol({:e}) at a reported time fails: {:?} (sol_span {:?})", dirn * span, t, e, s.sol_span()));
+                }
+            }
+            if let Err(e) = s.sol_many(&s.t) {
+                return Err(format!("span {:e}: sol_many over the reported times fails: {:?}", dirn * span, e));
+            }
         }
     }
     Ok(())
